@@ -545,6 +545,7 @@ def run(ctx):
     cov = dict(stats)
     cov.update({k + "_populated_start": v for k, v in stats2.items()})
     cov["populated_start"] = [list(e) for e in POPULATED]
+    cov["states"] = stats["bfs_states"] + stats2["bfs_states"]  # distinct canonical states reached by the two searches
     stats = dict(stats, bfs_capped=stats["bfs_capped"] or stats2["bfs_capped"])
     cov["rule"] = (
         "BFS over event histories (registry edits add/re-add/modify-float/modify-quantity/remove/"
